@@ -61,6 +61,18 @@ def gen(ctx):
         L.append('rs.dec %d %s' % (n, r.bytes(r.range(1, 255)).hex()))
         L.append('rs.dec %d %s' % (n, bytes(r.range(1, 100)).hex()))
         L.append('rs.dec %d %s' % (n, r.bytes(r.range(1, n)).hex()))        # shorter than the parity
+    # phantom locations: a word whose syndromes are those of errors at positions just in front of the block
+    # (locator roots pointing at location len, len+1, ... up to 254): must be answered with an error, never a panic
+    for n in range(2, 69):
+        for _ in range(3 if ctx.tier == 'quick' else 30):
+            ln = r.range(n + 1, 254)
+            extra = r.range(1, min(3, 255 - ln))
+            msg = bytes([r.range(1, 255)]) + r.bytes(ln + extra - 1 - n)
+            cw = msg + gf256.parity(n, msg)          # codeword of length ln + extra with a non-zero first byte
+            word = bytearray(cw[extra:])              # drop the first `extra` bytes: errors at locations >= ln
+            for _ in range(r.below(max(1, n // 2))):  # plus some real errors inside
+                word[r.below(len(word))] ^= r.range(1, 255)
+            L.append('rs.dec %d %s' % (n, bytes(word).hex()))
     for twoS in (-1, 0, 1):
         L.append('rs.dec %d %s' % (twoS, r.bytes(10).hex()))
     L.append('rs.dec 4 -')
